@@ -19,7 +19,7 @@ ASSUMPTIONS = {
 REQUIRED = {
     "C06": ["steps_compared", "single_word_cases", "program_cases", "self_modified_executed", "brz_taken", "opcode_alias_executed", "pc_wrap_steps", "selfmod_last_reexecuted", "selfmod_body_reexecuted", "loads_into_reused_simulation"],
     "C19": ["words_round_tripped", "sources_compared", "label_refs", "array_vars", "doc_examples", "sources_with_other_memory_size", "over_wide_operands_encoded", "tight_memory_sources"],
-    "C20": ["boundary_snapshots_compared", "illegal_calls_checked", "calls_after_done", "first_halves", "second_halves", "single_steps", "empty_program_call_strings"],
+    "C20": ["loaded_into_machine_abandoned_mid_instruction", "boundary_snapshots_compared", "illegal_calls_checked", "calls_after_done", "first_halves", "second_halves", "single_steps", "empty_program_call_strings"],
 }
 
 
